@@ -10,6 +10,7 @@ The conditional omissions of _u3_to_gpi2 (l = 0, t = -pi, p = -pi) are separate 
 Arbitrary one-/two-qubit unitaries (numerical ZYZ / KAK path) are exercised as a tolerance *test*
 (labelled as such; magic_decomposition is outside the proof, see DESIGN.md).
 """
+STATIC = ["Base/TrigMat"]
 import itertools
 import math
 import random
